@@ -5,24 +5,24 @@ from __future__ import annotations
 import struct
 
 
-def build_pe(sections=((0x200, 0x200),), e_lfanew=0x40, fill=b"\xcc", pe32plus=False, trailing=b"", max_len=1 << 16) -> tuple[bytes, int]:
+def build_pe(sections=((0x200, 0x200),), e_lfanew=0x40, fill=b"\xcc", pe32plus=False, trailing=b"", max_len=1 << 16, num_dirs=16) -> tuple[bytes, int]:
     """sections: ((PointerToRawData, SizeOfRawData), ...). Returns (image, true size)
     where true size = max(ptr + size) (what the library documents as the end of the file)."""
     dos = bytearray(b"MZ" + b"\x00" * 0x3E)
     struct.pack_into("<I", dos, 0x3C, e_lfanew)
     dos += b"\x00" * (e_lfanew - len(dos))
     nsec = len(sections)
-    opt_size = 240 if pe32plus else 224
+    opt_size = (112 if pe32plus else 96) + 8 * num_dirs
     coff = struct.pack("<HHIIIHH", 0x8664 if pe32plus else 0x14C, nsec, 0, 0, 0, opt_size, 0x0102)
     if pe32plus:
         opt = struct.pack("<HBBIIIII", 0x20B, 14, 0, 0x200, 0, 0, 0x1000, 0x1000)
         opt += struct.pack("<QIIHHHHHHIIIIHH", 0x140000000, 0x1000, 0x200, 6, 0, 0, 0, 6, 0, 0, 0x1000 * (nsec + 1), 0x200, 0, 3, 0)
-        opt += struct.pack("<QQQQII", 0x100000, 0x1000, 0x100000, 0x1000, 0, 16)
+        opt += struct.pack("<QQQQII", 0x100000, 0x1000, 0x100000, 0x1000, 0, num_dirs)
     else:
         opt = struct.pack("<HBBIIIIII", 0x10B, 14, 0, 0x200, 0, 0, 0x1000, 0x1000, 0x2000)
         opt += struct.pack("<IIIHHHHHHIIIIHH", 0x400000, 0x1000, 0x200, 6, 0, 0, 0, 6, 0, 0, 0x1000 * (nsec + 1), 0x200, 0, 3, 0)
-        opt += struct.pack("<IIIIII", 0x100000, 0x1000, 0x100000, 0x1000, 0, 16)
-    opt += b"\x00" * (16 * 8)
+        opt += struct.pack("<IIIIII", 0x100000, 0x1000, 0x100000, 0x1000, 0, num_dirs)
+    opt += b"\x00" * (num_dirs * 8)
     assert len(opt) == opt_size, len(opt)
     sect = b""
     for i, (ptr, size) in enumerate(sections):
@@ -53,6 +53,10 @@ def valid_images(r):
     out.append(build_pe(((0x200, 0x200),), e_lfanew=0x80))
     out.append(build_pe(((0x400, 0x200), (0x200, 0x200))))  # sections out of order
     out.append(build_pe(((0x200, 0x200),), pe32plus=True))
+    # "tiny PE" style headers declaring fewer than the usual 16 data directories
+    for nd in (0, 1, 4, 5, 15):
+        out.append(build_pe(((0x200, 0x200),), num_dirs=nd))
+    out.append(build_pe(((0x200, 0x400),), pe32plus=True, num_dirs=2))
     return out
 
 
